@@ -43,12 +43,14 @@ var HostileAttached = []string{
 	"-", "--", "---", "-x", "--x", "--x=y", "=", "==", "=a", "a=", "a=b", "a=b=c", " ", "  ", " a", "a ", "a b", "\t", "a\tb",
 	"\n", "a\nb", "\na", "a\n", "a\r\nb", "\r", "é", "ß", "日本語", "😀", "\xff", "\xc3", "a\xffb", "'", "\"", "\\", "$x", "*",
 	"true", "false", "0", "-0", "+5", "-5", "0x10", "1_000", "1e3", ".5", "5.", "NaN", "Inf", "-Inf", "1..3", "a,b", "a:b", "/x", "٣",
+	":8080", "::1", ":k=v", ":", "-=x", "-=",
 }
 
 // HostilePlain - texts usable as detached value / positional (do not start with a dash).
 var HostilePlain = []string{
 	" ", "a b", "a=b", "=a", "a=", "=", "\n", "a\nb", "\t", "é", "ß", "日本語", "😀", "\xff", "a\xffb", "'", "\"", "\\",
 	"true", "false", "0", "+5", "0x10", "1e3", ".5", "NaN", "a-b", "a--b", "/x", "٣", "a..b", "a,b",
+	"-=", "-=x", "-=-x", "-=a=b", ":8080",
 }
 
 // ScenGen - generation context handed to Inject hooks.
@@ -236,6 +238,8 @@ func (g *scenGen) Occurrence(o *Opt) *Item {
 			var v string
 			if i == 0 && it.Attached {
 				v = g.genValue(o, true, false)
+			} else if len(o.Valid) > 0 {
+				v = g.r.Pick(o.Valid)
 			} else {
 				v = g.pay.ValueFor(o.Kind)
 				if o.Kind == KStrings && g.cfg.HostileVals && g.r.Chance(1, 4) {
@@ -268,6 +272,28 @@ func (g *scenGen) unkOK(name string) bool {
 
 func (g *scenGen) genUnk() *Item {
 	it := &Item{K: IUnk, Level: g.node.Path}
+	// the same spelling can be a known option at one level and unknown at another (below an UnsetOptions wrapper):
+	// each occurrence is judged at the level it is given at
+	if g.r.Chance(1, 3) {
+		var cands []string
+		for n := g.node.Parent; n != nil; n = n.Parent {
+			for _, k := range n.SortedKeys() {
+				if k != "-" && RuneCount(k) > 1 && g.unkOK(k) {
+					cands = append(cands, k)
+				}
+			}
+		}
+		if len(cands) > 0 {
+			k := g.r.Pick(cands)
+			tok := "--" + k
+			if g.r.Chance(1, 3) {
+				tok += "=" + g.pay.Str()
+			}
+			it.Tokens = []string{tok}
+			it.UnkNames = []string{k}
+			return it
+		}
+	}
 	for tries := 0; tries < 50; tries++ {
 		long := g.r.Bool()
 		withVal := g.r.Chance(1, 3)
